@@ -64,10 +64,10 @@ def All (P : β → Prop) : Tree β → Prop
   | .done b => P b
   | .choose ar k => 0 < ar ∧ ∀ c, c < ar → (k c).All P
 
-/-- every path consumes exactly the arity sequence `ar` -/
+/-- every path consumes exactly the arity sequence `ar` (all arities positive) -/
 def Uniform : List Nat → Tree β → Prop
   | [], .done _ => True
-  | a :: ar, .choose a' k => a = a' ∧ ∀ c, c < a → (k c).Uniform ar
+  | a :: ar, .choose a' k => a = a' ∧ 0 < a ∧ ∀ c, c < a → (k c).Uniform ar
   | _, _ => False
 
 end Tree
